@@ -195,7 +195,14 @@ def r4(ctx, fs):
                 if END is None:
                     raise AnalysisBroken('%s: walk at %s: loop condition does not test the walk variable' % (f.id, short(w.get('loc'))))
                 END = canon_sub(END, env)
-                step = canon(asg[0].value, env, subst=False)      # ([] ([] _preds R) v)
+                def res1(t):
+                    # the predecessor may be read into a local of the loop body first (`c_pred = _preds[R][v]; ... v = c_pred;`): same value within the iteration
+                    if isinstance(t, str):
+                        ds = [n for n in walk(body) if n.get('k') == 'VarDecl' and env.rename.get(n.get('loc'), n.get('name')) == t and isinstance(n.get('init'), dict)]
+                        if len(ds) == 1:
+                            return canon(ds[0]['init'], env, subst=False)
+                    return t
+                step = res1(canon(asg[0].value, env, subst=False))      # ([] ([] _preds R) v)
                 R_step = step[1][2] if isinstance(step, tuple) and step[0] == '[]' and isinstance(step[1], tuple) and step[1][1] == T + '::_preds' and step[2] == v else None
                 # start value
                 START = None
@@ -211,6 +218,8 @@ def r4(ctx, fs):
                     parts = k[1:] if isinstance(k, tuple) and k[0] in ('list',) else (k[2:] if isinstance(k, tuple) and k[0] == 'new' else ())
                     if len(parts) == 1 and isinstance(parts[0], tuple) and parts[0][0] == 'list':
                         parts = parts[0][1:]
+                    if len(parts) == 2:
+                        parts = (res1(parts[0]), parts[1])
                     if len(parts) == 2 and parts[1] == v and isinstance(parts[0], tuple) and parts[0][0] == '[]' and parts[0][2] == v:
                         R_find = parts[0][1][2]
                 R_step_c = canon_sub(R_step, env) if R_step is not None else None
